@@ -13,6 +13,7 @@ NEUTRALS = []
 
 # changes made by sub-agents that were given only the property text (see /verif/seeded/<id>/): each must stay reported
 SEEDED = [
+    {'name': 'seeded change C19-r6', 'seed': 'C19-r6', 'expect': '|DOTS-fold|'},
     {'name': 'seeded change C19-r5b', 'seed': 'C19-r5b', 'expect': '|RX-number|'},
     {'name': 'seeded change C19-r5a', 'seed': 'C19-r5a', 'expect': '|ORDER-sib|'},
     {'name': 'seeded change C19-r4b', 'seed': 'C19-r4b', 'expect': '|DEAD-KEY|'},
